@@ -50,15 +50,28 @@ class Leaf(AutoSerialize):
         self.__dict__.update(kw)
 
 
+import torch as _torch
+
+
+class NNInner(AutoSerialize, _torch.nn.Module):
+    """An AutoSerialize class that is also a torch module (like quantem's ObjectPixelated, ProbePixelated, ...)."""
+
+    def __init__(self, **kw):
+        _torch.nn.Module.__init__(self)
+        self.__dict__.update(kw)
+
+
 _REG = {}
 MODE = {"skip": False}  # C14 re-uses this module with symbolic skip sets
 
 
-def make_registry():
+def make_registry(skip_mode=False):
+    MODE["skip"] = skip_mode
     reg = registry()
     cm.install(reg)
     for c in CONTRACTS:
-        reg.add_contract(c)
+        if c not in INLINE_AT_CALL_SITES:
+            reg.add_contract(c)
     for q in ("_serialize_value", "_get_group", "_get_array", "_is_autoserialize_instance", "_fix_torch_module_sets",
               "_convert_string_to_path_if_needed", "_is_numeric_scalar"):
         reg.inline.add(f"{AS}.{q}")
@@ -196,12 +209,20 @@ def mk_value(ctx, case, tag="v"):
         return mk_obj(Inner, [("c", ctx.fresh(tag + "_c", "int"))])
     if case == "obj:empty":
         return mk_obj(Leaf, [])
+    if case == "obj:sym":
+        # nested object whose two attribute names are arbitrary (symbolic)
+        n1 = fresh_name(ctx, tag + "_f1", Inner)
+        n2 = fresh_name(ctx, tag + "_f2", Inner, distinct_from=[n1])
+        return mk_obj(Inner, [(n1, ctx.fresh(tag + "_c1", "int")), (n2, ctx.fresh(tag + "_c2", "int"))])
+    if case == "obj:module":
+        o = mk_obj(NNInner, [("c", ctx.fresh(tag + "_c", "int"))])
+        return o
     return mk_leaf(ctx, case, tag)
 
 
 CONTAINER_CASES = ["list:int", "list:str", "list:empty", "tuple:int", "tuple:str", "tuple:empty", "dict", "dict:empty",
                    "set:int", "set:str", "set:empty"]
-OBJ_CASES = ["obj", "obj:empty"]
+OBJ_CASES = ["obj", "obj:empty", "obj:module"]
 ATTR_CASES = LEAF_CASES + EXTRA_CASES + CONTAINER_CASES + OBJ_CASES + ["npcomplex"]
 
 
@@ -322,6 +343,11 @@ def equiv(l, o, exp, pre=""):
         return out + equiv(enc.value, o, exp, pre)
     if l is o:
         add("same", True)
+        if isinstance(o, Obj) and MODE["skip"]:
+            # the very same object state came back (pickled whole): under C14 none of its attributes may be one that is skipped
+            for n, v in o.fields.items():
+                add(f"attr[{show(n)}]:not-skipped-inside-an-object-that-came-back-whole",
+                    z3.Not(z3.Or(name_skipped(exp.save_names, n), type_skipped(exp.save_types, v), name_skipped(exp.load_names, n))))
         return out
     if o is None:
         add("none", l is None)
@@ -463,6 +489,8 @@ def equiv_fields(l, o, exp, pre=""):
         else:
             out.append((f"{tag}:absent-only-if-skipped", skipped))
     for j in lkeys:
+        if MODE["skip"] and isinstance(j, str) and j in ("_autoserialize_skip_names", "_autoserialize_skip_types"):
+            continue  # C14 compares with loading WITHOUT skipping, which has the same two attributes (they are C01's finding)
         out.append((f"{pre}no-extra-attribute[{show(j)}]", B(any(key_same(j, n) for n in o.fields.keys()))))
     return out
 
@@ -682,7 +710,8 @@ C_RSAVE = Contract(f"{AS}._recursive_save", setup=rsave_setup, requires=rsave_re
                    recursive_by_contract=True)
 
 
-CHILD_CASES_W1 = SCALAR_CASES + ARRAY_CASES + TORCH_CASES + KINDONLY_CASES + ["list:int", "list:str", "tuple:str", "dict", "set:int", "obj", "npcomplex"]
+# (kinds whose SAVE already fails at attribute position - npcomplex, rng with non-PCG64 bit generators - are not repeated inside containers)
+CHILD_CASES_W1 = SCALAR_CASES + ARRAY_CASES + TORCH_CASES + ["pylogger", "tlogger", "rng:PCG64"] + ["list:int", "list:str", "tuple:str", "dict", "set:int", "obj"]
 # storage classes for wider containers: attr scalar / attr str / path flag / array / sub-group (container, object, tensor) / None
 CHILD_CLASSES = ["int", "str", "none", "path", "npfloat", "ndarray1", "tensor", "list:str", "obj"]
 CHILD_SMALL = ["int", "str", "ndarray1", "list:str"]
@@ -710,6 +739,12 @@ def container_cases():
 
 
 CONT_CASES = container_cases()
+CONT_CASES_SKIP = [("list", ("obj",)), ("tuple", ("obj",)), ("dict", ("obj",)), ("list", ("int", "obj")), ("dict", ("list:str", "obj")),
+                   ("list", ("list:str",)), ("dict", ("dict",)), ("tuple", ("ndarray1", "str")), ("list", ("int", "int"))]
+
+
+def cont_cases():
+    return CONT_CASES_SKIP if MODE["skip"] else CONT_CASES
 
 
 def mk_container(ctx, ct, kinds):
@@ -730,7 +765,7 @@ def case_tag(ct, kinds):
 
 
 def scont_setup(ctx):
-    ct, kinds = pick(ctx, "container_case", CONT_CASES)
+    ct, kinds = pick(ctx, "container_case", cont_cases())
     c = mk_container(ctx, ct, kinds)
     names, types = skip_ctx(ctx)
     return NS(self=mk_obj(Box, []), value=c, group=AGroup(), skip_names=names, skip_types=types, compressors=COMP, case=case_tag(ct, kinds))
@@ -784,7 +819,7 @@ C_SCONT = Contract(f"{AS}._serialize_container", setup=scont_setup, requires=sco
 
 
 def dcont_setup(ctx):
-    ct, kinds = pick(ctx, "container_case", CONT_CASES)
+    ct, kinds = pick(ctx, "container_case", cont_cases())
     c = mk_container(ctx, ct, kinds)
     names, types = skip_ctx(ctx)
     G = AGroup()
@@ -903,6 +938,42 @@ def rload_result(ctx, s):
 C_RLOAD = Contract(f"{AS}._recursive_load", setup=rload_setup, requires=rload_requires, ensures=rload_ensures, result=rload_result,
                    recursive_by_contract=True)
 
+
+# ------------------------------------------------------------------------------------------------
+# _serialize_value : dispatch of nested AutoSerialize objects (attribute names of the nested object are arbitrary)
+# ------------------------------------------------------------------------------------------------
+
+
+def sval_setup(ctx):
+    case = pick(ctx, "value_kind", ["obj", "obj:empty", "obj:sym", "obj:module"])
+    v = mk_value(ctx, case)
+    names, types = skip_ctx(ctx)
+    name = fresh_name(ctx, "name", Box)
+    return NS(self=mk_obj(Box, []), value=v, group=AGroup(), name=name, skip_names=names, skip_types=types, compressors=COMP, case=case)
+
+
+def sval_ensures(s):
+    if s.mode != "verify":
+        return []
+    G = s.group
+    c = f"[{s.case}]"
+    sub = next((g for k, g in G.groups.items() if key_same(k, s.name)), None)
+    out = [(c + "frame:one-sub-group-under-name-and-nothing-else", B(sub is not None and len(G.groups) == 1 and len(G.arrays) == 0 and len(G.attrs) == 0))]
+    whole = sub is not None and sub.attrs.m.get("_torch_whole_module") is True and s.case == "obj:module" and not MODE["skip"]
+    if whole:
+        # C01: an AutoSerialize object that is a torch module may be pickled whole (torch.save round trip, A6)
+        out.append((c + "module-object-pickled-whole", B("module" in sub.arrays.keys())))
+        return out
+    e = sub.enc if sub is not None else None
+    out.append((c + "nested-AutoSerialize-object-is-written-by-_recursive_save", B(e is not None and e.kind == "obj" and e.value is s.value)))
+    if e is not None:
+        out.append((c + "recursive-writer-got-skip_names", B(e.names is s.skip_names)))
+        out.append((c + "recursive-writer-got-skip_types", B(e.types is s.skip_types)))
+        out.append((c + "recursive-writer-got-compressors", B(e.compressors is s.compressors)))
+    return out
+
+
+C_SVAL = Contract(f"{AS}._serialize_value", setup=sval_setup, ensures=sval_ensures)
 
 # ------------------------------------------------------------------------------------------------
 # _is_numeric_scalar
@@ -1079,7 +1150,8 @@ def load_ensures(s):
 
 C_LOAD = Contract(f"{SER}:load", setup=load_setup, ensures=load_ensures)
 
-CONTRACTS = [C_WND, C_WBYTES, C_A2NP, C_READ, C_RSAVE, C_SCONT, C_DCONT, C_RLOAD, C_ISNUM, C_SAVE, C_LOAD]
+CONTRACTS = [C_WND, C_WBYTES, C_A2NP, C_READ, C_SVAL, C_RSAVE, C_SCONT, C_DCONT, C_RLOAD, C_ISNUM, C_SAVE, C_LOAD]
+INLINE_AT_CALL_SITES = [C_SVAL]  # verified on its own, but its callers keep interpreting the real body (more precise than a contract)
 LEMMAS = []
 BOUNDED = []
 TRUSTED = []
@@ -1555,7 +1627,7 @@ def conc_cont(ev):
     i = ev("container_case")
     if i is None:
         return None
-    ct, kinds = CONT_CASES[i]
+    ct, kinds = cont_cases()[i]
     return dict(position=ct, kinds=list(kinds))
 
 
